@@ -568,6 +568,8 @@ def extended_search(ctx, res, proof):
 
 def replay(ctx, rep):
     case = rep.get('case') or (rep.get('first_disagreements') or [{}])[0].get('case')
+    if case is None and 'seq' in rep:
+        case = rep                      # a corpus file
     if case is None:
         print(rep)
         return 1
